@@ -46,6 +46,43 @@ type LoopSpec struct {
 	Invariants []*Clause
 	Unroll     int
 	NoHoudini  bool
+	// invariants that name a local the code no longer has (with the missing name): re-tried with the function's
+	// other locals in that role (see renameCandidates)
+	Dropped []droppedInv
+}
+
+type droppedInv struct {
+	Clause *Clause
+	Name   string
+}
+
+// renameIdent: a copy of e with identifier `from` replaced by `to` (bound variables of quantifiers shadow).
+func renameIdent(e *SExpr, from, to string) *SExpr {
+	if e == nil {
+		return nil
+	}
+	n := *e
+	if e.Kind == "ident" && e.Name == from {
+		n.Name = to
+	}
+	for _, v := range e.Vars {
+		if v.Name == from {
+			return &n // shadowed below this quantifier
+		}
+	}
+	n.Args = nil
+	for _, a := range e.Args {
+		n.Args = append(n.Args, renameIdent(a, from, to))
+	}
+	n.Pats = nil
+	for _, ps := range e.Pats {
+		var q []*SExpr
+		for _, x := range ps {
+			q = append(q, renameIdent(x, from, to))
+		}
+		n.Pats = append(n.Pats, q)
+	}
+	return &n
 }
 
 type CallsiteSpec struct {
@@ -83,7 +120,7 @@ type FuncSpec struct {
 	Callback  bool
 	Inline    bool // always inline rather than use the contract
 	NoInline  bool
-	Trusted   bool // contract is assumed, body not verified (only in /verif/assumed)
+	Trusted   bool     // contract is assumed, body not verified (only in /verif/assumed)
 	Params    []string // names for extern/interface params (positional)
 	Results   []string
 	File      string
@@ -111,7 +148,7 @@ type GhostMap struct {
 }
 
 type TypeSpec struct {
-	Name      string // pkg.Type
+	Name      string              // pkg.Type
 	GuardedBy map[string][]string // mutex field -> guarded fields
 	Monitor   map[string][]*Clause
 	Valid     []*Clause
@@ -127,13 +164,13 @@ type Lemma struct {
 }
 
 type LemmaStep struct {
-	Kind    string // requires let ensures
-	Expr    *SExpr
-	Label   string
-	Names   []string // let: result names
-	Callee  string
-	Args    []*SExpr
-	Src     string
+	Kind   string // requires let ensures
+	Expr   *SExpr
+	Label  string
+	Names  []string // let: result names
+	Callee string
+	Args   []*SExpr
+	Src    string
 }
 
 type SpecDB struct {
